@@ -180,7 +180,7 @@ def also_violates(why, trace, line):
         if prior_failed: out.add("C04")                          # C04: the next call "returns exactly the results of the new tasks"
     if why in LEFTOVER:
         if abandoned: out.add("C16")                             # C16: reusable after close/drop, "instead of mixing the two runs"
-        if healthy: out.add("C01")                               # C01: a healthy call returns what the loop returns
+        if healthy or why == "C04.ResultOfEarlierCall": out.add("C01")   # C01: a call yields exactly the values of ITS tasks
     if why in ("C04.UnexpectedOutcome", "C04.NoTermination"):
         if gen and (abandoned or why == "C04.NoTermination"): out.add("C16")   # (a generator that never ends keeps the object "already running")                     # C16: "terminates cleanly and leaves the Parallel object reusable"
         if healthy: out.add("C01")
